@@ -98,8 +98,14 @@ Definition lookup_next (t : nat) (x : thread) (second : bool) (s : cstate) : cst
   end.
 (* tx.go lockKey / rLockKey: once the lock is obtained the record is validated - if it was unlinked
    while the thread waited, the lock is given back and the key is looked up again *)
+Definition holds_rec (x : thread) (r : nat) (excl : bool) : bool :=
+  existsb (fun h => Nat.eqb (fst h) r && (if excl then snd h else true)) (t_held x).
+(* tx.go lockKey is reentrant within one command: a record the command already holds (exclusively, for a
+   writer) is not locked a second time - LPOPRPUSH k k *)
 Definition try_lock (t : nat) (x : thread) (r : nat) (sec : bool) (s : cstate) : cstate :=
   let excl := negb (is_reader (t_cmd x)) in
+  if holds_rec x r excl then set_th t (with_pc x (PLocked r sec)) s
+  else
   if (if excl then lock_free true (get_rec r s) else lock_free false (get_rec r s) && negb (writer_waiting r s))
   then if r_unl (get_rec r s) then lookup_next t x sec s
        else set_th t {| t_cmd := t_cmd x; t_pc := PLocked r sec; t_held := (r, excl) :: t_held x |}
@@ -155,7 +161,8 @@ Definition mstep (t : nat) (s : cstate) : option cstate :=
           | Pop _ => if r_val (get_rec r s) =? 0 then Some (set_th t (with_pc x (PUnlink r true)) s) else Some (commit t x 1 s)
           | Move _ _ =>
               if sec then Some (commit t x 1 s)
-              else if r_val (get_rec r s) =? 0 then Some (set_th t (with_pc x (PUnlink r true)) s)
+              else if (r_val (get_rec r s) =? 0) && negb (Nat.eqb (key_of c false) (key_of c true))
+                   then Some (set_th t (with_pc x (PUnlink r true)) s)   (* a rotation keeps its key *)
               else Some (lookup_next t x true s)
           | _ => None
           end
